@@ -41,6 +41,28 @@ P = {
             "the (name, count) written.",
             "trusted: vpmon/ref/functable.py (arity table from the OData 4.01 spec)",
             "DESIGN.md 2/C11"),
+    "C06": ("value monitor: ABNF-driven literal/identifier spellings generated together with "
+            "their meaning, parsed by the real lexer in 11 contexts, node kind/.val/.py_val "
+            "compared with the independently computed value",
+            "Exploration by runtime monitoring: per literal kind thousands of spellings from the "
+            "ABNF (boundary values of each date/time field swept deterministically, all duration "
+            "component subsets x signs x fractions, hostile string contents) and identifiers up "
+            "to the length limit incl. keyword-prefixed names, each embedded in rotating "
+            "contexts; the oracle is the value the generator computed (Fraction arithmetic for "
+            "floats/durations). Held on the spellings produced.",
+            "trusted: vpmon/gen/literals.py value computation; tolerance 1us + 1e-15 relative "
+            "for durations",
+            "DESIGN.md 2/C06"),
+    "C13": ("round-trip monitor on the real renderer and parser (parse -> render -> parse, "
+            "library equality + decoded-term equality + fixpoint), M-immut on the renderer",
+            "Exploration by runtime monitoring: ASTs in the image of the parser (exhaustive "
+            "operator pairs/triples in two renderings; random full-grammar terms with all "
+            "literal kinds, hostile strings, singleton lists, right-nested equal precedence, "
+            "namespaces, paths, lambdas, named parameters) are rendered by AstToODataVisitor "
+            "and re-parsed; equality is checked on the library AST and on the independently "
+            "decoded term, and the second rendering must equal the first.",
+            "trusted: vpmon/ref/decode.py; only the parser's image is judged",
+            "DESIGN.md 2/C13"),
 }
 
 NOT_BUILT_REASON = "check not built yet in this round (design in DESIGN.md section 2); not claimed"
